@@ -22,9 +22,7 @@ Lemma nth_error_set_nth {A} (i j : nat) (x : A) l y :
 Proof.
   intros H. destruct (Nat.eq_dec i j) as [->|N].
   - left. split; auto. assert (j < length l).
-    { apply nth_error_Some. intros E. rewrite <- (set_nth_length j x l) in E at 1.
-      assert (nth_error (set_nth j x l) j = None) by (apply nth_error_None; rewrite set_nth_length;
-        apply nth_error_None; rewrite set_nth_length in E; exact E). congruence. }
+    { rewrite <- (set_nth_length j x l). apply nth_error_Some. congruence. }
     rewrite nth_error_set_nth_eq in H by auto. congruence.
   - right. split; auto. now rewrite nth_error_set_nth_ne in H.
 Qed.
@@ -89,9 +87,8 @@ Proof. destruct n; reflexivity. Qed.
 (* enough fuel: the value does not depend on it *)
 Lemma value_f_mono h : hwf h -> forall n m v, vfits n v -> vfits m v -> value_f n h v = value_f m h v.
 Proof.
-  intros W; induction n as [|n IH]; intros m [z|l] Fn Fm; simpl in *; try lia.
-  - now rewrite value_f_imm.
-  - now rewrite value_f_imm.
+  intros W; induction n as [|n IH]; intros m [z|l] Fn Fm; try (now rewrite !value_f_imm);
+    simpl in Fn, Fm; try lia.
   - destruct m as [|m]; [lia|]. simpl. destruct (nth_error h l) as [c|] eqn:E; auto.
     f_equal. apply map_ext_in. intros [z|j] Hin; [now rewrite !value_f_imm|].
     specialize (W _ _ _ E Hin). apply IH; simpl; lia.
@@ -107,8 +104,8 @@ Proof. intros W l L k R. apply nth_error_app_old. apply (reach_le _ W) in R. lia
 Lemma reach_ext_iff h ext : hwf h -> forall l, l < length h -> forall k, reach (h ++ ext) l k <-> reach h l k.
 Proof.
   intros W l L k; split; intros R.
-  - induction R; [constructor|].
-    econstructor; eauto. rewrite <- H. symmetry. apply nth_error_app_old.
+  - induction R; [constructor|]. specialize (IHR L).
+    econstructor; [exact IHR| |exact H0]. rewrite <- H. symmetry. apply nth_error_app_old.
     apply (reach_le _ W) in IHR. lia.
   - eapply reach_agree; [|exact R]. intros; eapply reach_old; eauto.
 Qed.
@@ -118,3 +115,693 @@ Proof.
   intros W n [z|l] F; [now rewrite !value_f_imm|]. simpl in F.
   apply value_agree. intros; eapply reach_old; eauto.
 Qed.
+(* ------------------------------------------------------------------ allocation *)
+Section PtreeInd.
+  Variable P : ptree -> Prop.
+  Hypothesis HI : forall z, P (PImm z).
+  Hypothesis HA : forall l, P (PAlias l).
+  Hypothesis HN : forall fs, Forall P fs -> P (PNode fs).
+  Fixpoint ptree_ind' (p : ptree) : P p :=
+    match p with
+    | PImm z => HI z
+    | PAlias l => HA l
+    | PNode fs => HN fs ((fix go (fs : list ptree) : Forall P fs :=
+                            match fs with
+                            | [] => Forall_nil _
+                            | f :: r => Forall_cons _ (ptree_ind' f) (go r)
+                            end) fs)
+    end.
+End PtreeInd.
+
+Lemma alloc_node h fs :
+  alloc h (PNode fs) = (fst (alloc_list fs h) ++ [snd (alloc_list fs h)], Ref (length (fst (alloc_list fs h)))).
+Proof.
+  simpl.
+  assert (E : forall fs h, (fix go (fs : list ptree) (h : heap) {struct fs} : heap * list fval :=
+                   match fs with
+                   | [] => (h, [])
+                   | f :: r => let (h1, v) := alloc h f in
+                               let (h2, vs) := go r h1 in (h2, v :: vs)
+                   end) fs h = alloc_list fs h).
+  { induction fs0 as [|f r IH]; intros h0; simpl; auto. }
+  now rewrite E.
+Qed.
+
+Lemma hwf_snoc h c : hwf h -> cfits (length h) c -> hwf (h ++ [c]).
+Proof.
+  intros W F l c0 j E Hin. destruct (Nat.lt_ge_cases l (length h)) as [L|L].
+  - rewrite nth_error_app1 in E by auto. eauto.
+  - rewrite nth_error_app2 in E by auto. destruct (l - length h) as [|d] eqn:D.
+    + simpl in E. injection E as <-. apply F in Hin. lia.
+    + simpl in E. destruct d; discriminate.
+Qed.
+
+Lemma pvalue_ext h ext : hwf h -> forall p, (forall a, In a (paliases p) -> a < length h) ->
+  forall n, pvalue n (h ++ ext) p = pvalue n h p.
+Proof.
+  intros W p; induction p as [z|l|fs IH] using ptree_ind'; intros A n; simpl; auto.
+  - destruct n; simpl; auto. rewrite nth_error_app1 by (apply A; simpl; auto).
+    destruct (nth_error h l) as [c|] eqn:E; auto. f_equal. apply map_ext_in. intros v Hin.
+    apply value_ext; auto. destruct v as [z|j]; simpl; auto.
+    specialize (W _ _ _ E Hin). specialize (A l (or_introl eq_refl)). lia.
+  - destruct n; auto. f_equal. apply map_ext_in. intros p Hin.
+    rewrite Forall_forall in IH. apply IH; auto. intros a Ha. apply A. simpl.
+    apply in_flat_map. eauto.
+Qed.
+
+Definition alloc_spec (h : heap) (p : ptree) (h' : heap) (v : fval) : Prop :=
+  (exists ext, h' = h ++ ext) /\ hwf h' /\ vfits (length h') v /\
+  (forall k, vreach h' v k -> length h <= k \/ exists a, In a (paliases p) /\ reach h a k) /\
+  (forall n, value_f n h' v = pvalue n h p).
+
+Definition allocs_spec (h : heap) (ps : list ptree) (h' : heap) (vs : list fval) : Prop :=
+  (exists ext, h' = h ++ ext) /\ hwf h' /\ cfits (length h') vs /\
+  (forall k, creach h' vs k -> length h <= k \/ exists a, In a (flat_map paliases ps) /\ reach h a k) /\
+  (forall n, map (value_f n h') vs = map (pvalue n h) ps).
+
+Ltac split5 := split; [|split; [|split; [|split]]].
+
+Definition alloc_ok (p : ptree) : Prop :=
+  forall h, hwf h -> (forall a, In a (paliases p) -> a < length h) ->
+            alloc_spec h p (fst (alloc h p)) (snd (alloc h p)).
+
+Lemma alloc_list_ok ps : Forall alloc_ok ps ->
+  forall h, hwf h -> (forall a, In a (flat_map paliases ps) -> a < length h) ->
+            allocs_spec h ps (fst (alloc_list ps h)) (snd (alloc_list ps h)).
+Proof.
+  induction 1 as [|f r Hf Hr IH]; intros h W A; simpl.
+  - split5.
+    + exists []. now rewrite app_nil_r.
+    + exact W.
+    + intros j [].
+    + intros k (l & [] & _).
+    + reflexivity.
+  - assert (Af : forall a, In a (paliases f) -> a < length h) by (intros; apply A; simpl; apply in_or_app; auto).
+    assert (Ar : forall a, In a (flat_map paliases r) -> a < length h) by (intros; apply A; simpl; apply in_or_app; auto).
+    specialize (Hf h W Af). destruct (alloc h f) as [h1 v]. simpl in Hf.
+    destruct Hf as ((e1 & E1) & W1 & F1 & R1 & V1).
+    assert (L1 : length h <= length h1) by (rewrite E1, app_length; lia).
+    specialize (IH h1 W1 (fun a Ha => Nat.lt_le_trans _ _ _ (Ar a Ha) L1)).
+    destruct (alloc_list r h1) as [h2 vs]. simpl in IH |- *.
+    destruct IH as ((e2 & E2) & W2 & F2 & R2 & V2).
+    assert (L2 : length h1 <= length h2) by (rewrite E2, app_length; lia).
+    split5.
+    + exists (e1 ++ e2). now rewrite E2, E1, app_assoc.
+    + exact W2.
+    + intros j [E|Hin]; [|now apply F2]. subst v. simpl in F1. lia.
+    + intros k (l & [E|Hin] & Rk).
+      * subst v. simpl in F1. rewrite E2 in Rk. apply (reach_ext_iff _ _ W1 _ F1) in Rk.
+        destruct (R1 k Rk) as [?|(a & Ha & Ra)]; auto. right. exists a. split; auto. apply in_or_app; auto.
+      * destruct (R2 k (ex_intro _ l (conj Hin Rk))) as [?|(a & Ha & Ra)]; [left; lia|].
+        right. exists a. split; [apply in_or_app; auto|]. rewrite E1 in Ra.
+        apply (reach_ext_iff _ _ W _ (Ar a Ha)) in Ra. exact Ra.
+    + intros n. simpl. f_equal.
+      * rewrite <- V1. rewrite E2. apply value_ext; auto.
+      * rewrite V2. apply map_ext_in. intros p Hin. rewrite E1. apply pvalue_ext; auto.
+        intros a Ha. apply Ar. apply in_flat_map. eauto.
+Qed.
+
+Lemma alloc_all_ok : forall p, alloc_ok p.
+Proof.
+  induction p as [z|l|fs IH] using ptree_ind'; intros h W A.
+  - simpl. split5; simpl.
+    + exists []. now rewrite app_nil_r.
+    + exact W.
+    + exact I.
+    + intros k [].
+    + intros n. apply value_f_imm.
+  - simpl. split5; simpl.
+    + exists []. now rewrite app_nil_r.
+    + exact W.
+    + apply A. simpl; auto.
+    + intros k R. right. exists l. simpl; auto.
+    + reflexivity.
+  - rewrite alloc_node. simpl fst; simpl snd.
+    pose proof (alloc_list_ok fs IH h W A) as S.
+    destruct (alloc_list fs h) as [h1 vs]. simpl in S |- *.
+    destruct S as ((e1 & E1) & W1 & F1 & R1 & V1).
+    assert (Wn : hwf (h1 ++ [vs])) by (apply hwf_snoc; auto).
+    split5.
+    + exists (e1 ++ [vs]). now rewrite E1, app_assoc.
+    + exact Wn.
+    + rewrite app_length. simpl. lia.
+    + intros k R. apply reach_head in R. destruct R as [<-|(c & j & Ec & Hin & Rj)].
+      * left. rewrite E1, app_length. lia.
+      * rewrite nth_error_app2, Nat.sub_diag in Ec by lia. simpl in Ec. injection Ec as <-.
+        pose proof (F1 _ Hin) as Fj. apply (reach_ext_iff _ _ W1 _ Fj) in Rj.
+        apply R1. exists j. auto.
+    + intros [|n]; simpl; auto.
+      rewrite nth_error_app2, Nat.sub_diag by lia. simpl. f_equal. rewrite <- V1.
+      apply map_ext_in. intros v Hin. apply value_ext; auto. destruct v; simpl; auto.
+Qed.
+
+Lemma alloc_list_spec ps h : hwf h -> (forall a, In a (flat_map paliases ps) -> a < length h) ->
+  allocs_spec h ps (fst (alloc_list ps h)) (snd (alloc_list ps h)).
+Proof. apply alloc_list_ok. apply Forall_forall. intros; apply alloc_all_ok. Qed.
+(* ------------------------------------------------------------------ state invariants *)
+Record Inv (s : state) : Prop := mkInv {
+  inv_wf : hwf (hp s);
+  inv_dfl : forall d, In d (dfl s) -> d < length (hp s);
+  inv_fits : forall rec, In rec (insts s) -> cfits (length (hp s)) rec;
+  (* no instance reaches a cell that belongs to a class default *)
+  inv_iso : forall rec d k, In rec (insts s) -> In d (dfl s) ->
+                            creach (hp s) rec k -> reach (hp s) d k -> False }.
+
+(* SEPARATION: the nested objects of two different instances are disjoint *)
+Definition Sep (s : state) : Prop :=
+  forall i j ri rj k, i <> j -> nth_error (insts s) i = Some ri -> nth_error (insts s) j = Some rj ->
+                      creach (hp s) ri k -> creach (hp s) rj k -> False.
+
+Lemma creach_ext h ext c : hwf h -> cfits (length h) c -> forall k, creach (h ++ ext) c k <-> creach h c k.
+Proof.
+  intros W F k; split; intros (l & Hin & R); exists l; split; auto;
+    apply (reach_ext_iff _ ext W _ (F _ Hin)); auto.
+Qed.
+
+Lemma creach_lt h c k : hwf h -> cfits (length h) c -> creach h c k -> k < length h.
+Proof. intros W F (l & Hin & R). apply F in Hin. apply (reach_le _ W) in R. lia. Qed.
+
+(* aliases that are harmless for the defaults *)
+Definition clean (s : state) (a : loc) : Prop :=
+  a < length (hp s) /\ forall d k, In d (dfl s) -> reach (hp s) a k -> reach (hp s) d k -> False.
+
+Lemma alloc_inv s ps insts' :
+  Inv s -> (forall a, In a (flat_map paliases ps) -> clean s a) ->
+  (forall rec, In rec insts' -> In rec (insts s) \/ rec = snd (alloc_list ps (hp s))) ->
+  Inv (mkState (fst (alloc_list ps (hp s))) (dfl s) insts').
+Proof.
+  intros [W D F I] C Hi.
+  destruct (alloc_list_spec ps (hp s) W (fun a Ha => proj1 (C a Ha))) as ((ext & E) & W' & F' & R' & _).
+  set (h' := fst (alloc_list ps (hp s))) in *. set (vs := snd (alloc_list ps (hp s))) in *.
+  assert (L : length (hp s) <= length h') by (rewrite E, app_length; lia).
+  constructor; simpl.
+  - exact W'.
+  - intros d Hd. specialize (D d Hd). lia.
+  - intros rec Hr. destruct (Hi rec Hr) as [Ho| ->]; auto. intros j Hj. specialize (F rec Ho j Hj). lia.
+  - intros rec d k Hr Hd Rc Rd. rewrite E in Rd. apply (reach_ext_iff _ _ W _ (D d Hd)) in Rd.
+    destruct (Hi rec Hr) as [Ho| ->].
+    + rewrite E in Rc. apply (creach_ext _ _ _ W (F rec Ho)) in Rc. eauto.
+    + destruct (R' k Rc) as [Lk|(a & Ha & Ra)].
+      * apply (reach_le _ W) in Rd. specialize (D d Hd). lia.
+      * destruct (C a Ha) as [_ Cl]. eauto.
+Qed.
+
+Lemma alloc_values s ps : Inv s -> (forall a, In a (flat_map paliases ps) -> a < length (hp s)) ->
+  forall n v, vfits (length (hp s)) v ->
+              value_f n (fst (alloc_list ps (hp s))) v = value_f n (hp s) v.
+Proof.
+  intros [W D F I] C n v Fv.
+  destruct (alloc_list_spec ps (hp s) W C) as ((ext & E) & _). rewrite E. apply value_ext; auto.
+Qed.
+
+Lemma build_eq s ps : build s ps = mkState (fst (alloc_list ps (hp s))) (dfl s) (insts s ++ [snd (alloc_list ps (hp s))]).
+Proof. unfold build. now destruct (alloc_list ps (hp s)). Qed.
+
+Lemma build_inv s ps : Inv s -> (forall a, In a (flat_map paliases ps) -> clean s a) -> Inv (build s ps).
+Proof.
+  intros HI C. rewrite build_eq. apply alloc_inv; auto.
+  intros rec Hin. apply in_app_or in Hin. destruct Hin as [?|[<-|[]]]; auto.
+Qed.
+
+Lemma build_sep s ps : Inv s -> Sep s -> flat_map paliases ps = [] -> Sep (build s ps).
+Proof.
+  intros [W D F I] S A. rewrite build_eq.
+  assert (C : forall a, In a (flat_map paliases ps) -> a < length (hp s)) by (rewrite A; intros a []).
+  destruct (alloc_list_spec ps (hp s) W C) as ((ext & E) & W' & F' & R' & _).
+  set (h' := fst (alloc_list ps (hp s))) in *. set (vs := snd (alloc_list ps (hp s))) in *.
+  assert (Old : forall i ri k, nth_error (insts s ++ [vs]) i = Some ri -> i < length (insts s) ->
+                               creach h' ri k -> nth_error (insts s) i = Some ri /\ creach (hp s) ri k).
+  { intros i ri k Hn Li Rc. rewrite nth_error_app1 in Hn by auto. split; auto.
+    rewrite E in Rc. apply (creach_ext _ _ _ W (F _ (nth_error_In _ _ Hn))) in Rc. auto. }
+  assert (New : forall i ri k, nth_error (insts s ++ [vs]) i = Some ri -> ~ i < length (insts s) ->
+                               creach h' ri k -> length (hp s) <= k).
+  { intros i ri k Hn Li Rc. rewrite nth_error_app2 in Hn by lia.
+    destruct (i - length (insts s)) as [|[|?]]; simpl in Hn; try discriminate. injection Hn as <-.
+    destruct (R' k Rc) as [?|(a & Ha & _)]; auto. rewrite A in Ha. destruct Ha. }
+  intros i j ri rj k Nij Hi Hj Ri Rj. simpl in *.
+  destruct (lt_dec i (length (insts s))) as [Li|Li], (lt_dec j (length (insts s))) as [Lj|Lj].
+  - destruct (Old _ _ _ Hi Li Ri), (Old _ _ _ Hj Lj Rj). eapply S; eauto.
+  - destruct (Old _ _ _ Hi Li Ri) as [Hi' Ri']. pose proof (New _ _ _ Hj Lj Rj).
+    pose proof (creach_lt _ _ _ W (F _ (nth_error_In _ _ Hi')) Ri'). lia.
+  - destruct (Old _ _ _ Hj Lj Rj) as [Hj' Rj']. pose proof (New _ _ _ Hi Li Ri).
+    pose proof (creach_lt _ _ _ W (F _ (nth_error_In _ _ Hj')) Rj'). lia.
+  - assert (i < length (insts s ++ [vs])) by (apply nth_error_Some; congruence).
+    assert (j < length (insts s ++ [vs])) by (apply nth_error_Some; congruence).
+    rewrite app_length in *. simpl in *. lia.
+Qed.
+
+(* ---- recipes without aliases *)
+Lemma of_tree_no_alias t : paliases (of_tree t) = [].
+Proof.
+  revert t. fix IH 1. intros [z|fs]; simpl; auto.
+  induction fs as [|f r IHr]; simpl; auto. now rewrite IH, IHr.
+Qed.
+
+Lemma resolve_fresh_no_alias s x : paliases (resolve true s x) = [].
+Proof.
+  revert x. fix IH 1. intros [z|fs|k]; simpl; auto.
+  - induction fs as [|f r IHr]; simpl; auto. now rewrite IH, IHr.
+  - destruct (nth_error (dfl s) k); simpl; auto. apply of_tree_no_alias.
+Qed.
+
+Lemma flat_map_nil {A B} (f : A -> list B) l : (forall x, In x l -> f x = []) -> flat_map f l = [].
+Proof. induction l; simpl; auto. intros H. rewrite H, IHl; auto. Qed.
+
+Lemma no_alias_fresh s fs : flat_map paliases (map (resolve true s) fs) = [].
+Proof. apply flat_map_nil. intros p Hp. apply in_map_iff in Hp as (x & <- & _). apply resolve_fresh_no_alias. Qed.
+
+Lemma no_alias_deep h rec : flat_map paliases (map (deep_p h) rec) = [].
+Proof. apply flat_map_nil. intros p Hp. apply in_map_iff in Hp as (x & <- & _). apply of_tree_no_alias. Qed.
+
+Lemma clean_nil s ps : flat_map paliases ps = [] -> forall a, In a (flat_map paliases ps) -> clean s a.
+Proof. intros -> a []. Qed.
+
+(* ---- writes *)
+Definition sub_refs (c' c : cell) : Prop := forall j, In (Ref j) c' -> In (Ref j) c.
+
+Lemma sub_refs_set c k z : sub_refs (set_nth k (Imm z) c) c.
+Proof. intros j H. apply in_set_nth in H. destruct H; [discriminate|auto]. Qed.
+
+Lemma creach_sub h c' c k : sub_refs c' c -> creach h c' k -> creach h c k.
+Proof. intros S (l & Hin & R). exists l; auto. Qed.
+
+Lemma walk_reach h : forall path l t, walk h l path = Some t -> reach h l t.
+Proof.
+  induction path as [|i rest IH]; simpl; intros l t H.
+  - injection H as <-. constructor.
+  - destruct (nth_error h l) as [c|] eqn:E; try discriminate.
+    destruct (nth_error c i) as [[z|j]|] eqn:Ei; try discriminate.
+    eapply reach_trans; [|apply IH; eauto]. econstructor; [constructor|exact E|]. eapply nth_error_In; eauto.
+Qed.
+
+Section HeapWrite.
+  Variables (h : heap) (t : loc) (c c' : cell).
+  Hypothesis Ht : nth_error h t = Some c.
+  Hypothesis Sub : sub_refs c' c.
+  Let h' := set_nth t c' h.
+
+  Lemma hw_reach a b : reach h' a b -> reach h a b.
+  Proof.
+    intros R; induction R; [constructor|]. unfold h' in H. apply nth_error_set_nth in H.
+    destruct H as [[-> ->]|[N H]]; econstructor; eauto.
+  Qed.
+
+  Lemma hw_wf : hwf h -> hwf h'.
+  Proof.
+    intros W l c0 j E Hin. unfold h' in E. apply nth_error_set_nth in E.
+    destruct E as [[-> ->]|[N E]]; eauto.
+  Qed.
+
+  Lemma hw_len : length h' = length h.
+  Proof. apply set_nth_length. Qed.
+
+  Lemma hw_frame l : ~ reach h l t -> forall n, value_f n h' (Ref l) = value_f n h (Ref l).
+  Proof.
+    intros N n. apply value_agree. intros k R. unfold h'. apply nth_error_set_nth_ne. intros ->. auto.
+  Qed.
+
+  Lemma hw_creach rec k : creach h' rec k -> creach h rec k.
+  Proof. intros (l & Hin & R). exists l. split; auto. apply hw_reach; auto. Qed.
+End HeapWrite.
+
+Inductive write_shape (s s' : state) (r : nat) : Prop :=
+| ws_same : s' = s -> write_shape s s' r
+| ws_top rec rec' : nth_error (insts s) r = Some rec -> sub_refs rec' rec ->
+    s' = mkState (hp s) (dfl s) (set_nth r rec' (insts s)) -> write_shape s s' r
+| ws_heap rec t c c' : nth_error (insts s) r = Some rec -> creach (hp s) rec t ->
+    nth_error (hp s) t = Some c -> sub_refs c' c ->
+    s' = mkState (set_nth t c' (hp s)) (dfl s) (insts s) -> write_shape s s' r.
+
+Lemma write_shape_ok s r path k z : write_shape s (write s r path k z) r.
+Proof.
+  unfold write. destruct (nth_error (insts s) r) as [rec|] eqn:Er; [|now apply ws_same].
+  destruct path as [|i rest].
+  - eapply ws_top; eauto using sub_refs_set.
+  - destruct (nth_error rec i) as [[z0|l]|] eqn:Ei; try now apply ws_same.
+    destruct (walk (hp s) l rest) as [t|] eqn:Ew; [|now apply ws_same].
+    destruct (nth_error (hp s) t) as [c|] eqn:Et; [|now apply ws_same].
+    eapply ws_heap; eauto using sub_refs_set.
+    exists l. split; [eapply nth_error_In; eauto|eapply walk_reach; eauto].
+Qed.
+
+Lemma write_inv s s' r : write_shape s s' r -> Inv s -> Inv s'.
+Proof.
+  intros [->|rec rec' Er Sub ->|rec t c c' Er Rt Et Sub ->] [W D F I]; [constructor; auto| |].
+  - constructor; simpl; auto.
+    + intros x Hx. apply in_set_nth in Hx. destruct Hx as [->|Hx]; auto.
+      intros j Hj. eapply F; [eapply nth_error_In; eauto|auto].
+    + intros x d k Hx Hd Rc Rd. apply in_set_nth in Hx. destruct Hx as [->|Hx]; eauto.
+      eapply I; [eapply nth_error_In; exact Er|exact Hd| |exact Rd]. eapply creach_sub; eauto.
+  - constructor; simpl.
+    + eapply hw_wf; eauto.
+    + intros d Hd. rewrite set_nth_length. auto.
+    + intros x Hx. rewrite set_nth_length. auto.
+    + intros x d k Hx Hd Rc Rd. eapply I; [exact Hx|exact Hd| |].
+      * eapply hw_creach; eauto.
+      * eapply hw_reach; eauto.
+Qed.
+
+Lemma write_sep s s' r : write_shape s s' r -> Sep s -> Sep s'.
+Proof.
+  intros [->|rec rec' Er Sub ->|rec t c c' Er Rt Et Sub ->] S; auto.
+  - intros i j ri rj k Nij Hi Hj Ri Rj. simpl in *.
+    apply nth_error_set_nth in Hi. apply nth_error_set_nth in Hj.
+    destruct Hi as [[<- ->]|[Ni Hi]], Hj as [[<- ->]|[Nj Hj]]; try congruence.
+    + eapply (S r j); eauto. eapply creach_sub; eauto.
+    + eapply (S i r); eauto. eapply creach_sub; eauto.
+    + eapply (S i j); eauto.
+  - intros i j ri rj k Nij Hi Hj Ri Rj. simpl in *.
+    eapply (S i j); eauto; eapply hw_creach; eauto.
+Qed.
+
+(* a write through instance r leaves the cells of every default and of every other instance alone *)
+Lemma write_default_frame s s' r : write_shape s s' r -> Inv s ->
+  forall d n, In d (dfl s) -> value_f n (hp s') (Ref d) = value_f n (hp s) (Ref d).
+Proof.
+  intros [->|rec rec' Er Sub ->|rec t c c' Er Rt Et Sub ->] [W D F I] d n Hd; auto.
+  simpl. eapply hw_frame; eauto. intros Rd. eapply I; eauto. eapply nth_error_In; eauto.
+Qed.
+
+Lemma write_inst_frame s s' r : write_shape s s' r -> Sep s ->
+  forall r' n, r' <> r -> inst_values n s' r' = inst_values n s r'.
+Proof.
+  intros [->|rec rec' Er Sub ->|rec t c c' Er Rt Et Sub ->] S r' n N; auto; unfold inst_values; simpl.
+  - rewrite nth_error_set_nth_ne by auto. reflexivity.
+  - destruct (nth_error (insts s) r') as [rec0|] eqn:E0; simpl; auto. f_equal.
+    apply map_ext_in. intros [z|l] Hin; [now rewrite !value_f_imm|].
+    eapply hw_frame; eauto. intros Rl. eapply (S r' r); eauto. exists l; auto.
+Qed.
+(* ------------------------------------------------------------------ one step *)
+Definition update_state (s : state) (dst : nat) (rec : cell) : state :=
+  mkState (fst (alloc_list (map (shallow_p (hp s)) rec) (hp s))) (dfl s)
+          (set_nth dst (snd (alloc_list (map (shallow_p (hp s)) rec) (hp s))) (insts s)).
+
+Lemma step_update c s dst src : step c s (OUpdate dst src) =
+  match nth_error (insts s) dst, nth_error (insts s) src with
+  | Some _, Some rec => update_state s dst rec
+  | _, _ => s
+  end.
+Proof.
+  simpl. destruct (nth_error (insts s) dst); auto. destruct (nth_error (insts s) src) as [rec|]; auto.
+  unfold update_state. now destruct (alloc_list (map (shallow_p (hp s)) rec) (hp s)).
+Qed.
+
+Lemma shallow_aliases s rec a : Inv s -> In rec (insts s) ->
+  In a (flat_map paliases (map (shallow_p (hp s)) rec)) -> clean s a.
+Proof.
+  intros [W D F I] Hr Ha. apply in_flat_map in Ha as (p & Hp & Ha).
+  apply in_map_iff in Hp as ([z|l] & <- & Hl); simpl in Ha; [destruct Ha|].
+  destruct (nth_error (hp s) l) as [c|] eqn:E; simpl in Ha; [|destruct Ha].
+  apply in_flat_map in Ha as (q & Hq & Ha). apply in_map_iff in Hq as ([z|j] & <- & Hj); simpl in Ha; [destruct Ha|].
+  destruct Ha as [<-|[]].
+  pose proof (W _ _ _ E Hj) as Ljl. pose proof (F _ Hr _ Hl) as Ll.
+  split; [lia|]. intros d k Hd Rk Rd. eapply I; [exact Hr|exact Hd| |exact Rd].
+  exists l. split; auto. eapply reach_trans; [|exact Rk]. econstructor; [constructor|exact E|exact Hj].
+Qed.
+
+Lemma step_dfl c s o : dfl (step c s o) = dfl s.
+Proof.
+  destruct o as [fs|fs|r|r|dst src|r path k z]; try rewrite step_update; simpl;
+    rewrite ?build_eq; simpl; auto.
+  - destruct (nth_error (insts s) r); auto. destruct (mkcopy_deep c); rewrite ?build_eq; auto.
+  - destruct (nth_error (insts s) r); rewrite ?build_eq; auto.
+  - destruct (nth_error (insts s) dst); auto. destruct (nth_error (insts s) src); auto.
+  - destruct (write_shape_ok s r path k z) as [->|? ? ? ? ->|? ? ? ? ? ? ? ? ->]; auto.
+Qed.
+
+Lemma step_inv c s o : parse_fresh c = true -> Inv s -> Inv (step c s o).
+Proof.
+  intros PF HI. destruct o as [fs|fs|r|r|dst src|r path k z]; try rewrite step_update; simpl.
+  - apply build_inv; auto. apply clean_nil, no_alias_fresh.
+  - rewrite PF. apply build_inv; auto. apply clean_nil, no_alias_fresh.
+  - destruct (nth_error (insts s) r) as [rec|] eqn:Er; auto. destruct (mkcopy_deep c).
+    + apply build_inv; auto. apply clean_nil, no_alias_deep.
+    + destruct HI as [W D F I]. apply nth_error_In in Er. constructor; simpl; auto.
+      * intros x Hx. apply in_app_or in Hx as [Hx|[<-|[]]]; auto.
+      * intros x d k Hx. apply in_app_or in Hx as [Hx|[<-|[]]]; eauto.
+  - destruct (nth_error (insts s) r) as [rec|] eqn:Er; auto.
+    apply build_inv; auto. apply clean_nil, no_alias_deep.
+  - destruct (nth_error (insts s) dst) as [rd|] eqn:Ed; auto.
+    destruct (nth_error (insts s) src) as [rec|] eqn:Es; auto.
+    apply alloc_inv; auto.
+    + intros a Ha. eapply shallow_aliases; eauto. eapply nth_error_In; eauto.
+    + intros x Hx. apply in_set_nth in Hx. destruct Hx; auto.
+  - eapply write_inv; eauto using write_shape_ok.
+Qed.
+
+Lemma step_sep c s o : parse_fresh c = true -> mkcopy_deep c = true -> is_update o = false ->
+  Inv s -> Sep s -> Sep (step c s o).
+Proof.
+  intros PF MD NU HI S. destruct o as [fs|fs|r|r|dst src|r path k z]; simpl; try discriminate.
+  - apply build_sep; auto. apply no_alias_fresh.
+  - rewrite PF. apply build_sep; auto. apply no_alias_fresh.
+  - destruct (nth_error (insts s) r) as [rec|] eqn:Er; auto. rewrite MD.
+    apply build_sep; auto. apply no_alias_deep.
+  - destruct (nth_error (insts s) r) as [rec|] eqn:Er; auto.
+    apply build_sep; auto. apply no_alias_deep.
+  - eapply write_sep; eauto using write_shape_ok.
+Qed.
+
+Lemma aliases_lt s ps : (forall a, In a (flat_map paliases ps) -> clean s a) ->
+  forall a, In a (flat_map paliases ps) -> a < length (hp s).
+Proof. intros C a Ha. apply (C a Ha). Qed.
+
+Lemma step_default_frame c s o : parse_fresh c = true -> Inv s ->
+  forall d n, In d (dfl s) -> value_f n (hp (step c s o)) (Ref d) = value_f n (hp s) (Ref d).
+Proof.
+  intros PF HI d n Hd. pose proof (inv_dfl _ HI d Hd) as Ld.
+  assert (B : forall ps, flat_map paliases ps = [] ->
+                         value_f n (hp (build s ps)) (Ref d) = value_f n (hp s) (Ref d)).
+  { intros ps A. rewrite build_eq. simpl. apply alloc_values; auto. rewrite A. intros a []. }
+  destruct o as [fs|fs|r|r|dst src|r path k z]; try rewrite step_update; simpl.
+  - apply B, no_alias_fresh.
+  - rewrite PF. apply B, no_alias_fresh.
+  - destruct (nth_error (insts s) r) as [rec|]; auto. destruct (mkcopy_deep c); auto. apply B, no_alias_deep.
+  - destruct (nth_error (insts s) r) as [rec|]; auto. apply B, no_alias_deep.
+  - destruct (nth_error (insts s) dst) as [rd|] eqn:Ed; auto.
+    destruct (nth_error (insts s) src) as [rec|] eqn:Es; auto.
+    simpl. apply alloc_values; auto. apply aliases_lt. intros a Ha.
+    eapply shallow_aliases; eauto. eapply nth_error_In; eauto.
+  - eapply write_default_frame; eauto using write_shape_ok.
+Qed.
+
+Lemma step_inst_frame c s o r' n : parse_fresh c = true -> Inv s -> Sep s ->
+  target o <> Some r' -> r' < length (insts s) ->
+  inst_values n (step c s o) r' = inst_values n s r'.
+Proof.
+  intros PF HI S T L.
+  assert (B : forall ps, flat_map paliases ps = [] -> inst_values n (build s ps) r' = inst_values n s r').
+  { intros ps A. rewrite build_eq. unfold inst_values. simpl. rewrite nth_error_app1 by auto.
+    destruct (nth_error (insts s) r') as [rec|] eqn:E; simpl; auto. f_equal.
+    apply map_ext_in. intros v Hv. apply alloc_values; auto.
+    - rewrite A. intros a [].
+    - pose proof (inv_fits _ HI _ (nth_error_In _ _ E)) as Fr. destruct v; simpl; auto. }
+  destruct o as [fs|fs|r|r|dst src|r path k z]; try rewrite step_update; simpl.
+  - apply B, no_alias_fresh.
+  - rewrite PF. apply B, no_alias_fresh.
+  - destruct (nth_error (insts s) r) as [rec|]; auto. destruct (mkcopy_deep c); [apply B, no_alias_deep|].
+    unfold inst_values. simpl. now rewrite nth_error_app1 by auto.
+  - destruct (nth_error (insts s) r) as [rec|]; auto. apply B, no_alias_deep.
+  - destruct (nth_error (insts s) dst) as [rd|] eqn:Ed; auto.
+    destruct (nth_error (insts s) src) as [rec|] eqn:Es; auto.
+    unfold inst_values. simpl. rewrite nth_error_set_nth_ne by (simpl in T; congruence).
+    destruct (nth_error (insts s) r') as [rec0|] eqn:E; simpl; auto. f_equal.
+    apply map_ext_in. intros v Hv. apply alloc_values; auto.
+    + apply aliases_lt. intros a Ha. eapply shallow_aliases; eauto. eapply nth_error_In; eauto.
+    + pose proof (inv_fits _ HI _ (nth_error_In _ _ E)) as Fr. destruct v; simpl; auto.
+  - eapply write_inst_frame; eauto using write_shape_ok. simpl in T. congruence.
+Qed.
+
+(* ------------------------------------------------------------------ histories *)
+Lemma init_eq ds : init ds = mkState (fst (alloc_list (map of_tree ds) [])) (ref_locs (snd (alloc_list (map of_tree ds) []))) [].
+Proof. unfold init. now destruct (alloc_list (map of_tree ds) []). Qed.
+
+Lemma init_inv ds : Inv (init ds) /\ Sep (init ds).
+Proof.
+  rewrite init_eq. split.
+  - assert (W0 : hwf []) by (intros l c j E; destruct l; discriminate).
+    assert (A : flat_map paliases (map of_tree ds) = []).
+    { apply flat_map_nil. intros p Hp. apply in_map_iff in Hp as (x & <- & _). apply of_tree_no_alias. }
+    destruct (alloc_list_spec (map of_tree ds) [] W0) as (_ & W & F & _).
+    { rewrite A. intros a []. }
+    constructor; simpl; auto.
+    + intros d Hd. apply F. unfold ref_locs in Hd. apply in_flat_map in Hd as ([z|l] & Hv & Hd); simpl in Hd.
+      * destruct Hd.
+      * destruct Hd as [<-|[]]. exact Hv.
+    + intros rec [].
+  - intros i j ri rj k _ Hi. simpl in Hi. destruct i; discriminate.
+Qed.
+
+Lemma run_snoc c s ops o : run c s (ops ++ [o]) = step c (run c s ops) o.
+Proof. unfold run. now rewrite fold_left_app. Qed.
+
+Lemma run_inv c : parse_fresh c = true -> forall ops s, Inv s -> Inv (run c s ops).
+Proof. intros PF; induction ops as [|o ops IH]; simpl; intros s HI; auto. apply IH. apply step_inv; auto. Qed.
+
+Lemma run_dfl c : forall ops s, dfl (run c s ops) = dfl s.
+Proof. induction ops as [|o ops IH]; simpl; intros s; auto. rewrite IH. apply step_dfl. Qed.
+
+Lemma run_sep c : parse_fresh c = true -> mkcopy_deep c = true ->
+  forall ops s, no_update ops -> Inv s -> Sep s -> Sep (run c s ops).
+Proof.
+  intros PF MD; induction ops as [|o ops IH]; simpl; intros s NU HI S; auto.
+  unfold no_update in NU. simpl in NU. apply andb_prop in NU as [N1 N2].
+  apply negb_true_iff in N1. apply IH; auto using step_inv, step_sep.
+Qed.
+
+Lemma run_default_frame c : parse_fresh c = true -> forall ops s, Inv s ->
+  forall d n, In d (dfl s) -> value_f n (hp (run c s ops)) (Ref d) = value_f n (hp s) (Ref d).
+Proof.
+  intros PF; induction ops as [|o ops IH]; simpl; intros s HI d n Hd; auto.
+  rewrite IH; auto using step_inv.
+  - apply step_default_frame; auto.
+  - now rewrite step_dfl.
+Qed.
+
+(* ---- a freshly constructed object has the same value whenever it is constructed *)
+Lemma pvalue_no_alias p : paliases p = [] -> forall n h h', pvalue n h p = pvalue n h' p.
+Proof.
+  induction p as [z|l|fs IH] using ptree_ind'; simpl; intros A n h h'; auto; try discriminate.
+  destruct n; auto. f_equal. apply map_ext_in. intros p Hp. rewrite Forall_forall in IH.
+  apply IH; auto. destruct (paliases p) as [|a r] eqn:E; auto.
+  assert (In a (flat_map paliases fs)) by (apply in_flat_map; exists p; rewrite E; simpl; auto).
+  rewrite A in H. destruct H.
+Qed.
+
+Lemma resolve_same s s0 : Inv s -> Inv s0 -> dfl s = dfl s0 -> length (hp s0) <= length (hp s) ->
+  (forall d n, In d (dfl s0) -> value_f n (hp s) (Ref d) = value_f n (hp s0) (Ref d)) ->
+  forall x, resolve true s x = resolve true s0 x.
+Proof.
+  intros HI HI0 ED L V. fix IH 1. intros [z|fs|k]; simpl; auto.
+  - f_equal. induction fs as [|f r IHr]; simpl; auto. now rewrite IH, IHr.
+  - rewrite ED. destruct (nth_error (dfl s0) k) as [d|] eqn:E; auto.
+    unfold deep_p. f_equal. apply nth_error_In in E. rewrite V by auto.
+    apply value_f_mono; [apply HI0| |]; simpl; pose proof (inv_dfl _ HI0 d E); lia.
+Qed.
+
+Lemma last_values_build s ps n : Inv s -> flat_map paliases ps = [] ->
+  last_values n (build s ps) = Some (map (pvalue n (hp s)) ps).
+Proof.
+  intros HI A. rewrite build_eq. unfold last_values, inst_values. simpl.
+  rewrite app_length. simpl. replace (length (insts s) + 1 - 1) with (length (insts s)) by lia.
+  rewrite nth_error_app2, Nat.sub_diag by lia. simpl. f_equal.
+  destruct (alloc_list_spec ps (hp s) (inv_wf _ HI)) as (_ & _ & _ & _ & V); auto.
+  rewrite A. intros a [].
+Qed.
+Lemma alloc_len : forall p h, length h <= length (fst (alloc h p)).
+Proof.
+  induction p as [z|l|fs IH] using ptree_ind'; intros h; [simpl; auto|simpl; auto|].
+  rewrite alloc_node. simpl fst. rewrite app_length. simpl.
+  assert (forall h, length h <= length (fst (alloc_list fs h))).
+  { clear h. induction IH as [|f r Hf Hr IHr]; intros h; simpl; auto.
+    specialize (Hf h). destruct (alloc h f) as [h1 v]. specialize (IHr h1).
+    destruct (alloc_list r h1) as [h2 vs]. simpl in *. lia. }
+  specialize (H h). lia.
+Qed.
+
+Lemma alloc_list_len : forall ps h, length h <= length (fst (alloc_list ps h)).
+Proof.
+  induction ps as [|f r IH]; intros h; simpl; auto.
+  pose proof (alloc_len f h). destruct (alloc h f) as [h1 v]. specialize (IH h1).
+  destruct (alloc_list r h1) as [h2 vs]. simpl in *. lia.
+Qed.
+
+Lemma step_len c s o : length (hp s) <= length (hp (step c s o)).
+Proof.
+  destruct o as [fs|fs|r|r|dst src|r path k z]; try rewrite step_update; simpl;
+    rewrite ?build_eq; simpl; auto using alloc_list_len.
+  - destruct (nth_error (insts s) r); auto. destruct (mkcopy_deep c); rewrite ?build_eq; simpl; auto using alloc_list_len.
+  - destruct (nth_error (insts s) r); rewrite ?build_eq; simpl; auto using alloc_list_len.
+  - destruct (nth_error (insts s) dst); auto. destruct (nth_error (insts s) src); simpl; auto using alloc_list_len.
+  - destruct (write_shape_ok s r path k z) as [->|? ? ? ? ->|? ? ? ? ? ? ? ? ->]; simpl; auto.
+    rewrite set_nth_length. auto.
+Qed.
+
+Lemma run_len c : forall ops s, length (hp s) <= length (hp (run c s ops)).
+Proof.
+  induction ops as [|o ops IH]; simpl; intros s; auto.
+  specialize (IH (step c s o)). pose proof (step_len c s o). lia.
+Qed.
+
+(* ================================================================== main results *)
+
+(* SEPARATION FRAME: under separation, an operation aimed at one instance (or at none) leaves the value
+   of every other instance as it was. *)
+Theorem separation_frame c s o r' n : parse_fresh c = true -> Inv s -> Sep s ->
+  target o <> Some r' -> r' < length (insts s) ->
+  inst_values n (step c s o) r' = inst_values n s r'.
+Proof. apply step_inst_frame. Qed.
+
+Theorem reachable_inv c ds ops : parse_fresh c = true -> Inv (run c (init ds) ops).
+Proof. intros PF. apply run_inv; auto. apply init_inv. Qed.
+
+Theorem reachable_sep c ds ops : parse_fresh c = true -> mkcopy_deep c = true -> no_update ops ->
+  Sep (run c (init ds) ops).
+Proof. intros PF MD NU. apply run_sep; auto; apply init_inv. Qed.
+
+Theorem defaults_constant c ds ops k n : parse_fresh c = true ->
+  default_value n (run c (init ds) ops) k = default_value n (init ds) k.
+Proof.
+  intros PF. unfold default_value. rewrite run_dfl.
+  destruct (nth_error (dfl (init ds)) k) as [d|] eqn:E; simpl; auto. f_equal.
+  apply run_default_frame; auto. apply init_inv. eapply nth_error_In; eauto.
+Qed.
+
+Theorem new_constant c ds ops fs n : parse_fresh c = true ->
+  last_values n (step c (run c (init ds) ops) (ONew fs)) = last_values n (step c (init ds) (ONew fs)).
+Proof.
+  intros PF. simpl. set (s0 := init ds). set (s := run c s0 ops).
+  assert (HI0 : Inv s0) by apply init_inv.
+  assert (HI : Inv s) by (apply run_inv; auto).
+  rewrite !last_values_build by auto using no_alias_fresh. f_equal.
+  rewrite !map_map. apply map_ext. intros x.
+  rewrite (resolve_same s s0); auto.
+  - apply pvalue_no_alias. apply resolve_fresh_no_alias.
+  - apply run_dfl.
+  - apply run_len.
+  - intros d m Hd. apply run_default_frame; auto.
+Qed.
+
+Theorem instances_independent ds ops o r' n : no_update ops -> target o <> Some r' ->
+  r' < length (insts (run fixed (init ds) ops)) ->
+  inst_values n (step fixed (run fixed (init ds) ops) o) r' = inst_values n (run fixed (init ds) ops) r'.
+Proof.
+  intros NU T L. apply separation_frame; auto.
+  - apply reachable_inv; auto.
+  - apply reachable_sep; auto.
+Qed.
+
+(* ------------------------------------------------------------------ what fails without the repairs *)
+(* today's parse: the absent member IS the class default; writing through the parsed instance changes
+   the default, and with it every instance constructed later *)
+Definition wit_parse_ds : list tree := [TNode [TImm 1; TImm 2]].
+Definition wit_parse_ops : list op := [OParse [XImm 5; XDefault 0]; OWrite 0 [1] 0 7].
+
+Lemma parse_default_refuted :
+  default_value 3 (run today (init wit_parse_ds) wit_parse_ops) 0 = Some (TNode [TImm 7; TImm 2]) /\
+  default_value 3 (init wit_parse_ds) 0 = Some (TNode [TImm 1; TImm 2]) /\
+  last_values 3 (step today (run today (init wit_parse_ds) wit_parse_ops) (ONew [XImm 0; XDefault 0]))
+    = Some [TImm 0; TNode [TImm 7; TImm 2]] /\
+  check_C12 today wit_parse_ds wit_parse_ops = false /\
+  check_C12 fixed wit_parse_ds wit_parse_ops = true.
+Proof. vm_compute. repeat split. Qed.
+
+(* today's mk_copy (copy.copy): a nested write on the copy changes the original *)
+Definition wit_copy_ops : list op := [ONew [XImm 5; XDefault 0]; OCopy 0; OWrite 1 [1] 0 7].
+
+Lemma shallow_refuted :
+  inst_values 3 (run today (init wit_parse_ds) wit_copy_ops) 0 = Some [TImm 5; TNode [TImm 7; TImm 2]] /\
+  inst_values 3 (run fixed (init wit_parse_ds) wit_copy_ops) 0 = Some [TImm 5; TNode [TImm 1; TImm 2]] /\
+  check_C12 today wit_parse_ds wit_copy_ops = false /\
+  check_C12 fixed wit_parse_ds wit_copy_ops = true.
+Proof. vm_compute. repeat split. Qed.
+
+(* update_from_other_container copies one level only (unchanged by the repairs): below that level source
+   and destination share -- this is why [instances_independent] excludes OUpdate from the history *)
+Definition wit_update_ops : list op :=
+  [ONew [XNode [XNode [XImm 1]]]; ONew [XNode []]; OUpdate 1 0; OWrite 1 [0; 0] 0 9].
+
+Lemma update_shares :
+  inst_values 4 (run fixed (init []) wit_update_ops) 0 = Some [TNode [TNode [TImm 9]]] /\
+  check_C12 fixed [] wit_update_ops = false.
+Proof. vm_compute. repeat split. Qed.
